@@ -218,9 +218,38 @@ func init() {
 		cl := newClient(cside)
 		w.conns[name] = cl
 		srv := sasl.NewServer("", "", w.auth.url(), "example.com")
+		// the Server object of this piped connection can be shut down like a listening one
+		// (c20_srv_shutdown with srv = the connection's name): Shutdown waits for the handler
+		started := make(chan struct{})
+		close(started)
+		c20Servers[name] = &c20Server{svc: "sasl", sa: srv, startRet: started}
 		go func() {
 			defer close(cl.done)
 			srv.VerifC20Handle(sside)
+		}()
+		return Obs{"ok": true}
+	})
+
+	// c20_keep_sending: the client goes on sending `data` every `every_ms`, `count` times, in the
+	// background (a client that is alive and keeps talking while the service shuts down)
+	register("c20_keep_sending", func(w *World, op Op) Obs {
+		cl, ok := w.conns[op.str("conn")]
+		if !ok {
+			return Obs{"error": "no conn"}
+		}
+		data := []byte(op.str("data"))
+		every := time.Duration(op.num("every_ms", 250)) * time.Millisecond
+		n := op.num("count", 20)
+		go func() {
+			for i := 0; i < n; i++ {
+				_ = cl.conn.SetWriteDeadline(time.Now().Add(every))
+				if _, err := cl.conn.Write(data); err != nil {
+					if ne, ok := err.(net.Error); !ok || !ne.Timeout() {
+						return
+					}
+				}
+				time.Sleep(every)
+			}
 		}()
 		return Obs{"ok": true}
 	})
